@@ -5,7 +5,7 @@ E: TLC checks Position.tla for every parameter value of each configuration: the 
    text, lexer column -> file column, bare `if:` condition, glob column, node position of keys / values) gives
    exactly the TRUTH read off the rendered text (Exact), the truth moves by exactly k when k blanks are put in
    front of the construct or k lines above it (ShiftLaw), and lies inside the file (InFile).
-G: every state of these runs is dumped: diagnostic class (catalogue of 61 classes: lexer / parser / semantic /
+G: every state of these runs is dumped: diagnostic class (catalogue of 92 classes: lexer / parser / semantic /
    untrusted / availability errors inside ${{ }} and bare `if:` conditions, unknown / duplicate keys, value errors
    of ids, shell names, permissions, runner labels, cron, events, matrix, needs, actions ..., characters of filter
    patterns) x placement (slot, quoting, block / flow, indentation unit, sequence indentation, nesting depth,
@@ -17,6 +17,9 @@ G: every state of these runs is dumped: diagnostic class (catalogue of 61 classe
    Shift relation, between two real outputs: within every group of vectors that differ only in what is put in
    front of / above the construct (blanks, lines, prefix text, indentation, `---`), the reported position moves
    against the group's reference exactly as the truth moves.
+   Two rules on one scalar: the slots filter / types / matrixdup2 and the classes *-expr put a construct diagnosed by
+   RuleGlob / RuleEvents / RuleMatrix / RuleDeprecatedCommands / RuleIfCond next to one diagnosed by RuleExpression
+   in the same scalar, so that a rule that disturbs the node position another rule reports later is seen.
    Every diagnostic of every run (and of the repository's own test workflows): 1 <= line <= number of lines,
    col >= 1, unless it is the YAML-level syntax error.
 """
@@ -30,15 +33,15 @@ LEVEL = 'model_checking'
 
 PLANS = {
     'quick': [
-        ('Position_arith_q.cfg', 'offset arithmetic: 4 classes x 9 slots x quoting x prefix 0..5 x earlier 0..3 x blanks 0..2'),
+        ('Position_arith_q.cfg', 'offset arithmetic: 4 classes x 12 slots x quoting x prefix 0..5 x earlier 0..3 x blanks 0..2'),
         ('Position_classes_q.cfg', 'all 27 expression classes x slots x quoting x block/flow'),
-        ('Position_kv_q.cfg', '34 key / value / glob classes x quoting x style x indentation x shifts k=1..3'),
+        ('Position_kv_q.cfg', '65 key / value / glob classes (every parser diagnostic about a key or one-line value) x quoting x style x indentation x shifts k=1..3'),
         ('Position_layout_q.cfg', 'expressions x indentation unit x sequence indentation x depth x style x shifts'),
     ],
     'thorough': [
-        ('Position_arith_t.cfg', 'offset arithmetic: all 27 expression classes x 9 slots x quoting x block/flow x prefix 0..5 '
+        ('Position_arith_t.cfg', 'offset arithmetic: all 27 expression classes x 12 slots x quoting x block/flow x prefix 0..5 '
                                  'x earlier 0..3 x blanks 0..2 x depth'),
-        ('Position_kv_t.cfg', '34 key / value / glob classes x quoting x style x 5 indentation units x --- x shifts k=1..3'),
+        ('Position_kv_t.cfg', '65 key / value / glob classes x quoting x style x 5 indentation units x --- x shifts k=1..3'),
         ('Position_layout_t.cfg', 'expressions x 5 indentation units x sequence indentation x depth 0..2 x style x --- x '
                                   'shifts k=1..3'),
     ],
@@ -46,7 +49,8 @@ PLANS = {
 
 SLOT_SITE = {'ifb': 'if-cond-bare', 'ifw': 'if-cond-wrapped', 'matrix': 'matrix-value', 'env': 'env-value',
              'runname': 'run-name', 'stepname': 'step-name', 'run': 'run-script', 'with': 'with-input',
-             'timeout': 'timeout-minutes'}
+             'timeout': 'timeout-minutes', 'filter': 'filter-value', 'types': 'activity-type-value',
+             'matrixdup2': 'matrix-value'}      # site = code path: both matrix slots go through checkRawYAMLString
 
 # parameters that only put something in front of / above the construct
 SHIFT_PARAMS = ('gap', 'kl', 'plen', 'ind', 'seqind', 'docstart')
@@ -101,21 +105,36 @@ def execute(sd, vecs, name='vec'):
     return outs
 
 
+def expected(v):
+    """the predicted positions: the target and, in the slots that hold the construct twice, its companion"""
+    e = {(v['exp']['line'], v['exp']['col'])}
+    if v.get('exp2') and v['exp2']['line'] > 0:
+        e.add((v['exp2']['line'], v['exp2']['col']))
+    return sorted(e)
+
+
 def judge(v, o):
     """-> ('ok' | 'undiagnosed' | 'wrong', positions) for one vector against the TLC prediction"""
     pos = positions(v, o)
     if not pos:
         return 'undiagnosed', pos
-    return ('ok' if pos == [(v['exp']['line'], v['exp']['col'])] else 'wrong'), pos
+    return ('ok' if pos == expected(v) else 'wrong'), pos
+
+
+def deltas_of(v, pos):
+    e = expected(v)
+    if len(e) == len(pos):
+        return {'%d,%d' % (a - x, b - y) for (a, b), (x, y) in zip(pos, e)}
+    return {'%d,%d' % (a - e[0][0], b - e[0][1]) for a, b in pos}
 
 
 def slim(v):
-    return {k: v[k] for k in ('cls', 'fam', 'kind', 'phrase', 'p', 'doc', 'exp', 'sc', 'nlines', 'tline')}
+    return {k: v[k] for k in ('cls', 'fam', 'kind', 'phrase', 'p', 'doc', 'exp', 'exp2', 'sc', 'nlines', 'tline')}
 
 
 def light(v):
     """what is kept of a vector once it has been run (documents and sources only for the examples of violations)"""
-    return {k: v[k] for k in ('cls', 'fam', 'kind', 'phrase', 'p', 'exp')}
+    return {k: v[k] for k in ('cls', 'fam', 'kind', 'phrase', 'p', 'exp', 'exp2')}
 
 
 def run(ck, tier):
@@ -160,7 +179,7 @@ def run(ck, tier):
                 w = wrong.setdefault(site_of(v), {'n': 0, 'deltas': set(), 'classes': set(), 'ex': (slim(v), o, pos)})
                 w['n'] += 1
                 w['classes'].add(v['cls'])
-                w['deltas'] |= {'%d,%d' % (a - v['exp']['line'], b - v['exp']['col']) for a, b in pos}
+                w['deltas'] |= deltas_of(v, pos)
             # the shift relation needs the source of both runs only for its report: keep the text, not the document
             keep[i] = o['src']
         del part, outs
@@ -173,14 +192,16 @@ def run(ck, tier):
     shift_bad = {}
     npairs = 0
     for ident, idx in groups.items():
-        idx = [i for i in idx if len(res[i][1]) == 1]
+        idx = [i for i in idx if len(res[i][1]) == len(expected(vecs[i]))]
         if len(idx) < 2:
             continue
         r0 = idx[0]
         for i in idx[1:]:
             npairs += 1
-            want = (vecs[i]['exp']['line'] - vecs[r0]['exp']['line'], vecs[i]['exp']['col'] - vecs[r0]['exp']['col'])
-            got = (res[i][1][0][0] - res[r0][1][0][0], res[i][1][0][1] - res[r0][1][0][1])
+            want = tuple((a - x, b - y) for (a, b), (x, y) in zip(expected(vecs[i]), expected(vecs[r0])))
+            got = tuple((a - x, b - y) for (a, b), (x, y) in zip(res[i][1], res[r0][1]))
+            if len(want) == 1:
+                want, got = want[0], got[0]
             if want != got:
                 shift_bad.setdefault('shift:' + site_of(vecs[i]), []).append((r0, i, want, got))
 
@@ -194,7 +215,7 @@ def run(ck, tier):
                      '%s: the %s diagnostic is not reported at the position of the offending token for %d of the generated '
                      'placements (line,col differences observed - expected: %s; classes: %s), e.g. expected %d:%d, reported at %s:\n%s'
                      % (site, v['cls'], w['n'], deltas, ', '.join(sorted(w['classes'])),
-                        v['exp']['line'], v['exp']['col'], pos, o['src']),
+                        expected(v)[0][0], expected(v)[0][1], pos, o['src']),
                      {'kind': 'exact', 'deltas': deltas, 'count': w['n'], 'classes': sorted(w['classes']), 'vector': v,
                       'src': o['src'], 'observed_positions': pos, 'observed': o['diags']})
     for site, lst in sorted(shift_bad.items()):
@@ -218,11 +239,13 @@ def run(ck, tier):
 
     missing = sorted(cs for cs in pairs if cs not in judged)
     if undiag:
+        ck.cov['undiagnosed'] = ['%s/%s' % cs for cs in sorted(undiag)]
         (c, s), (v, o) = sorted(undiag.items())[0]
         ck.note('%d (class, slot) pairs have placements in which the real linter does not report the class at all (not a '
                 'position question), e.g. %s in %s: %s' % (len(undiag), c, s, show(o) or 'no diagnostic'))
         ck.cov['undiagnosed_pairs'] = len(undiag)
-    if missing and not ck.violations:
+    unmatched = [x for x in ck.violations if vplib.match_known(ck.prop, dict(x['replay'], site=x['site'])) is None]
+    if missing and not unmatched:
         v, o = undiag[missing[0]]
         raise Inconclusive('catalogue class %s is never diagnosed in slot %s (message reworded or construct accepted?): %s\n%s'
                            % (missing[0][0], missing[0][1], show(o) or 'no diagnostic', o['src']))
@@ -308,11 +331,11 @@ def replay(path):
             return 2
         p1, p0 = positions(vs[0], {'diags': outs[0]['diags'] or []}), positions(vs[1], {'diags': outs[1]['diags'] or []})
         print(vs[1]['src'] + '  reference: reported at %s\n' % p0 + vs[0]['src'] + '  shifted: reported at %s' % p1)
-        if len(p1) != 1 or len(p0) != 1:
-            print('replay not applicable: the class is not reported exactly once in both runs')
+        if len(p1) != len(expected(vs[0])) or len(p0) != len(expected(vs[1])):
+            print('replay not applicable: the class is not reported as often as expected in both runs')
             return 2
-        want = (vs[0]['exp']['line'] - vs[1]['exp']['line'], vs[0]['exp']['col'] - vs[1]['exp']['col'])
-        got = (p1[0][0] - p0[0][0], p1[0][1] - p0[0][1])
+        want = [(a - x, b - y) for (a, b), (x, y) in zip(expected(vs[0]), expected(vs[1]))]
+        got = [(a - x, b - y) for (a, b), (x, y) in zip(p1, p0)]
         print('truth moves by %s, report moves by %s' % (want, got))
         return 1 if want != got else 0
     vs = [rp['vector']]
@@ -322,8 +345,7 @@ def replay(path):
             print('replay not applicable:', o['err'])
             return 2
         print(o['src'])
-        print('  predicted %d:%d for [%s] "%s"; reported at %s' % (v['exp']['line'], v['exp']['col'], v['kind'], v['phrase'],
-                                                                  positions(v, o)))
+        print('  predicted %s for [%s] "%s"; reported at %s' % (expected(v), v['kind'], v['phrase'], positions(v, o)))
     if rp['kind'] == 'bounds':
         bad = bounds_bad(outs[0]['diags'], outs[0]['nlines'])
         print('diagnostics outside the file:', bad)
